@@ -273,8 +273,11 @@ struct statx;
 int statx(int dirfd, const char *path, int flags, unsigned int mask, struct statx *buf) {
     static int (*real)(int, const char *, int, unsigned int, struct statx *);
     if (!real) real = dlsym(RTLD_NEXT, "statx");
-    if (!path[0] && fstat_fault(dirfd)) return -1;
-    if (stat_fault(path)) return -1;
+    /* (Rust's std probes for statx support with a NULL path and expects EFAULT; the header
+     * declares the argument nonnull, so the test goes through a volatile copy) */
+    const char *volatile p = path;
+    if (p && !p[0] && fstat_fault(dirfd)) return -1;
+    if (p && stat_fault(p)) return -1;
     return real(dirfd, path, flags, mask, buf);
 }
 int stat(const char *path, struct stat *buf) {
